@@ -8,7 +8,7 @@ import random
 
 from jsonpickle import encode, decode
 
-from .values import Plain, Other
+from .values import Plain, Other, ReturnedError
 
 
 def _candidates():
@@ -23,12 +23,21 @@ def _candidates():
         {'s1': shared, 's2': shared}, [shared, shared],
         'above interception limit', 10 ** 18, 1.5, 'a' * 300,
         ([1, 2], {'k': [3]}), (Plain(m=[1]), 'x'),
+        ReturnedError(), {'error_type': 'ValueError', 'error_repr': "ValueError('x')"},
     ]
 
 
 # pairs of structurally similar values of different type: a key / value scheme that forgets types confuses them
 CONFUSABLE = [((1, 2), [1, 2]), (Plain(x=1), Other(x=1)), (1, True), (1, 1.0), ('a', b'a'), ({1, 2}, [1, 2]),
               ({'a': 1}, Plain(a=1)), (0, False), ('1', 1), ((1,), [1])]
+
+
+def _deep_mutable(v, depth=0):
+    if isinstance(v, (list, dict, set)) or (hasattr(v, '__dict__') and not isinstance(v, BaseException)):
+        return True
+    if isinstance(v, tuple) and depth < 3:
+        return any(_deep_mutable(x, depth + 1) for x in v)
+    return False
 
 
 def _same(a, b):
@@ -85,13 +94,13 @@ class Concretisation(object):
         self.rnd = random.Random(seed)
         self.map = {}
         if confusable:   # (tokenA, tokenB): concretise as a type-confusable pair
-            a, b = CONFUSABLE[seed % len(CONFUSABLE)]
+            a, b = CONFUSABLE[(seed // 4) % len(CONFUSABLE)]
             if _roundtrips(a) and _roundtrips(b):
                 self.map[confusable[0]], self.map[confusable[1]] = a, b
         self.order = list(pool())
         self.rnd.shuffle(self.order)
         if prefer_mutable:  # identity / aliasing checks are only meaningful on non-interned, mutable values
-            self.order.sort(key=lambda v: 0 if isinstance(v, (list, dict, set)) or hasattr(v, '__dict__') else 1)
+            self.order.sort(key=lambda v: 0 if _deep_mutable(v) else 1)
 
     def value(self, token):
         if token not in self.map:
